@@ -1015,6 +1015,25 @@ def directed_recipes():
                             {'op': 'remove', 't': {'p': 4, 'r': one(0, 2)}, 'w': {'s': 1}},
                             {'op': 'transfer', 'src': {'c': 1}, 'dst': {'c': 3}, 'q': q('1', 'm', 'L')}],
                   'stages': [], 'queries': []})
+    # transfers inside one plate: a column into the next one, one well into several, a column pooled into one well
+    col = lambda c: {'rect': [[0, 1], [c]]}
+    progs.append({'subs': subs, 'objects': objs, 'prefill': [],
+                  'steps': [{'op': 'transfer', 'src': {'c': 1}, 'dst': {'p': 2, 'r': col(0)}, 'q': q('100', 'u', 'L')},
+                            {'op': 'transfer', 'src': {'p': 2, 'r': col(0)}, 'dst': {'p': 2, 'r': col(1)}, 'q': q('20', 'u', 'L')},
+                            {'op': 'transfer', 'src': {'p': 2, 'r': one(0, 1)}, 'dst': {'p': 2, 'r': col(2)}, 'q': q('5', 'u', 'L')},
+                            {'op': 'transfer', 'src': {'c': 3}, 'dst': {'p': 4, 'r': row(0)}, 'q': q('20', 'u', 'L')},
+                            {'op': 'transfer', 'src': {'p': 2, 'r': col(0)}, 'dst': {'p': 2, 'r': one(1, 2)}, 'q': q('10', 'u', 'L')},
+                            {'op': 'transfer', 'src': {'p': 4, 'r': one(0, 0)}, 'dst': {'p': 4, 'r': row(1)}, 'q': q('2', 'u', 'L')}],
+                  'stages': [{'name': 'st1', 'start': 1, 'stop': 3}, {'name': 'st2', 'start': 4, 'stop': 6}], 'queries': []})
+    # a mixing vessel that is drawn from, receives another substance, and is drawn from again
+    mix = objs + [{'t': 'c', 'name': 5, 'init': []}]
+    progs.append({'subs': subs, 'objects': mix, 'prefill': [],
+                  'steps': [{'op': 'transfer', 'src': {'c': 1}, 'dst': {'c': 5}, 'q': q('5', 'm', 'L')},
+                            {'op': 'transfer', 'src': {'c': 5}, 'dst': {'p': 4, 'r': row(0)}, 'q': q('50', 'u', 'L')},
+                            {'op': 'transfer', 'src': {'c': 3}, 'dst': {'c': 5}, 'q': q('0.5', 'm', 'L')},
+                            {'op': 'transfer', 'src': {'c': 5}, 'dst': {'p': 4, 'r': row(1)}, 'q': q('50', 'u', 'L')},
+                            {'op': 'transfer', 'src': {'c': 5}, 'dst': {'p': 2, 'r': row(0)}, 'q': q('10', 'u', 'L')}],
+                  'stages': [{'name': 'st1', 'start': 0, 'stop': 2}, {'name': 'st2', 'start': 2, 'stop': 4}], 'queries': []})
     # a large vessel spiked again and again with a vanishing share of its content: every addition is an inflow
     big = [{'t': 'c', 'name': 1, 'init': [[1, q('1', '', 'L')]]}, {'t': 'c', 'name': 2, 'init': [[1, q('1', 'm', 'L')], [4, q('58.44', 'u', 'g')]]}]
     progs.append({'subs': subs, 'objects': big, 'prefill': [],
